@@ -6,7 +6,14 @@ class Env:
     def __init__(self):
         self.reset()
 
+    sched = None
+
     def reset(self):
+        if self.sched is not None:
+            try:
+                self.sched.shutdown()
+            finally:
+                self.sched = None
         self.now = 1000.0
         self.tick = 0.001          # every clock read advances by this much
         self.delivery_hook = None  # callable(kind, obj) run when a waiter would block
